@@ -279,6 +279,17 @@ func run(e *core.Env) {
 	sSess.Encryption().InitCleanup()
 	rSess.Encryption().InitCleanup()
 
+	// In a quarter of the runs the regular-class counters of both sessions start shortly
+	// below the numbers at which the receiver begins to look out for the next key, so that
+	// the history straddles that edge - without ever reaching the wrap itself (what happens
+	// at the wrap is C15's subject; here no key change is due, and none must happen).
+	if tp.Chance(1, 4) {
+		const lookout = 0xFFFF_FF00 // 255 below the largest number (see the statement of C15)
+		(&state.EncryptionSessionTestHelper{EncryptionSession: sSess.Encryption()}).ReglSetOut(lookout - uint32(tp.Intn(150)))
+		(&state.EncryptionSessionTestHelper{EncryptionSession: sLink}).ReglSetOut(lookout - uint32(tp.Intn(150)))
+		e.Probe("numbers_shortly_below_the_wrap")
+	}
+
 	sB, rB := sN.Inst.Builder, rN.Inst.Builder
 
 	deliverE2E := func(data []byte) error {
